@@ -209,6 +209,7 @@ fn child_main(args: Args) -> i32 {
         known: Known::load(&args.verif_dir, &args.id),
         verif_dir: args.verif_dir.clone(),
         threads: args.threads,
+        stack: core::DEFAULT_STACK,
     };
 
     // wall-clock watchdog: a hang is an infrastructure problem (exit 2), never a violation
